@@ -103,7 +103,9 @@ type StoreReach struct {
 	RegSlots    []RawHandle
 	BlobFiles   []string // uuid file names present in the store's blob folder
 	Problems    []string // C10: something reachable does not load
-	OrphanBlobs []string // C11
+	OrphanBlobs []string // C11: unreferenced node blobs (and value blobs of in-node stores)
+	// OrphanValueBlobs are unreferenced blobs of an out-of-node store whose content is a value, not a node.
+	OrphanValueBlobs []string
 	OrphanRegs  []string // C11
 }
 
@@ -253,7 +255,13 @@ func ReadDisk(dir string) *Reach {
 		for _, f := range sr.BlobFiles {
 			have[f] = true
 			if !sr.Referenced[f] {
-				sr.OrphanBlobs = append(sr.OrphanBlobs, f)
+				id, _ := sop.ParseUUID(f)
+				b, _ := os.ReadFile(blobPath(dir, sr.Info.BlobTable, id))
+				if !sr.Info.IsValueDataInNodeSegment && !strings.HasPrefix(string(b), `{"ID":`) {
+					sr.OrphanValueBlobs = append(sr.OrphanValueBlobs, f)
+				} else {
+					sr.OrphanBlobs = append(sr.OrphanBlobs, f)
+				}
 			}
 		}
 		for _, s := range slots {
@@ -299,7 +307,18 @@ func (r *Reach) CheckAgainst(stores []StoreOpts, models []*Model) string {
 	return ""
 }
 
-// Orphans lists C11-type leftovers.
+// OrphanValues lists unreferenced value blobs of out-of-node stores.
+func (r *Reach) OrphanValues() []string {
+	var out []string
+	for _, n := range r.Names {
+		for _, b := range r.Stores[n].OrphanValueBlobs {
+			out = append(out, fmt.Sprintf("%s: value blob %s is referenced by nothing", n, b))
+		}
+	}
+	return out
+}
+
+// Orphans lists C11-type leftovers other than OrphanValues.
 func (r *Reach) Orphans() []string {
 	var out []string
 	for _, n := range r.Names {
